@@ -41,7 +41,7 @@ def streams(seed, tier):
                 skipped.add(nm); continue
             for depth in range(0, maxd + 1):
                 idxs = [None] if op in ("DUP", "POP", "SWAP", "ROT", "FLUSH", "STACKDEPTH") else \
-                    [None, -2147483648, -2, -1] + list(range(0, depth + 2)) + [2147483647]
+                    [None, -2147483648, -2, -1] + list(range(0, depth + 2)) + [2147483647, 255, 256, 65535, 65536, 65537, 131072, 1 << 20, (1 << 16) + depth - 1, (1 << 24) + 1]
                 for idx in idxs:
                     for prof in (0, 1):
                         st = bystanders()
@@ -49,7 +49,8 @@ def streams(seed, tier):
                         if T == "EXEC":
                             st["exec"] = [I(nm)] + st["exec"]
                         else:
-                            st["exec"] = [I(nm)]
+                            # for CODE: EXEC keeps 0 .. 3 further items (depths that coincide with CODE positions)
+                            st["exec"] = [I(nm)] + ([Z(70 + j) for j in range((depth + (idx or 0)) % 4)] if T == "CODE" else [])
                         if idx is not None:
                             st["int"] = [idx] + (st["int"] if T != "INTEGER" else st["int"])
                         cases.append(case_run(prof, state(**st), 0, 1))
@@ -122,7 +123,7 @@ def streams(seed, tier):
     c30 = list(DEFAULT_CFG); c30[4] = 30
     for T, (field, mk) in TYPES.items():
         for op1 in OPS:
-            for op2 in (op1, "SWAP", "DUP"):
+            for op2 in OPS:
                 n1, n2 = T + "." + op1, T + "." + op2
                 if n1 not in names or n2 not in names:
                     continue
@@ -132,6 +133,9 @@ def streams(seed, tier):
                 st["exec"] = [I(n1), I(n2), Z(61), Z(62), Z(63)] if T == "EXEC" else [I(n1), I(n2)]
                 st["cfg"] = c30
                 pairs.append(case_run(len(pairs) % 2, state(**st), 1, 0))
+                if T != "EXEC":        # the pair as two neighbouring members of a list, after an instruction that takes the next EXEC item as its argument
+                    st2 = dict(st); st2["exec"] = [L(I("CODE.QUOTE"), I(n1), I(n2), Z(5)), L(I("EXEC.K"), I(n1), I(n2))]
+                    pairs.append(case_run(len(pairs) % 2, state(**st2), 1, 0))
     out.append(Stream("pairs-through-run", "run", "run.check", pairs,
                       "every stack instruction followed by itself, by SWAP and by DUP of the same type, executed by PushInterpreter::run from a 4-deep stack: whole final state = model"))
     out.append(Stream("size-thresholds", "run", "stackops.check", cases,
